@@ -142,6 +142,10 @@ def cAfterSub (s : State) (new : Int) : State :=
 def vSub (s : State) : State × Bool :=
   ({ s with vwn := s.vwn - 1 }, s.vwnI = (vertexReadyOldAt : Int))
 
+/-- `_waiting_num.fetch_sub(k)`; leaving the representable range (below -3) raises `bad` -/
+def decCnt (s : State) (k : Nat) : State :=
+  if s.cnt < k then { s with bad := true } else { s with cnt := s.cnt - k }
+
 def ordAR : Ord := .acqrel
 
 /-- One atomic action of actor `x`.  `sp`: a weak CAS that would succeed fails spuriously. -/
@@ -179,7 +183,7 @@ def step (s : State) (x : Actor) (sp : Bool) : Option (State × Act) :=
     | .sub1 =>
       let new := s.cntI - readyDec
       let l := Act.rmw "sub" "dep.wn" 0 ordAR (u64 s.cntI) readyDec
-      let s := { s with cnt := s.cnt - readyDec }
+      let s := decCnt s readyDec
       let (s, e) := checkEst s
       if e then
         if new = readyActivateTargetAt then
@@ -191,7 +195,7 @@ def step (s : State) (x : Actor) (sp : Bool) : Option (State × Act) :=
     | .actT => some ({ s with c := .done }, .ld "T.closure" 0 .acq (closureVal s.tgtSealed))
     | .sub2 =>
       let new := s.cntI - readyDec2
-      some (cAfterSub { s with cnt := s.cnt - readyDec2 } new, .rmw "sub" "dep.wn" 0 ordAR (u64 s.cntI) readyDec2)
+      some (cAfterSub (decCnt s readyDec2) new, .rmw "sub" "dep.wn" 0 ordAR (u64 s.cntI) readyDec2)
     | .rdyLd => some ({ s with rdy := s.tgtSealed, c := .notify }, .ld "T.closure" 0 .acq (closureVal s.tgtSealed))
     | .notify =>
       let (s', hit) := vSub s
@@ -209,7 +213,7 @@ def step (s : State) (x : Actor) (sp : Bool) : Option (State × Act) :=
     | .sub =>
       let new := s.cntI - readyDec
       let l := Act.rmw "sub" "dep.wn" 0 ordAR (u64 s.cntI) readyDec
-      let s := { s with cnt := s.cnt - readyDec }
+      let s := decCnt s readyDec
       if new = readyNotifyAt then
         let (s, e) := checkEst s
         some ({ s with rdy := e, t := .notify }, l)
